@@ -23,6 +23,12 @@ func init() {
 }
 
 func c03Rules(tier string) []Rule {
+	rules := c03RulesBase(tier)
+	rules = append(rules, syncedFreshRules("C03")...)
+	return rules
+}
+
+func c03RulesBase(tier string) []Rule {
 	const create = `^call iface:\(cr/client\.Writer\)\.Create\(.*<\*apis/v1\.NodeClaim>`
 	return []Rule{
 		WMC{ID: "C03.WMC1", Sink: create,
@@ -95,6 +101,17 @@ func c03Rules(tier string) []Rule {
 			rs = append(rs, core.InstrPresent(w, id, "RET", c, `^store &local<\[1\]corev1\.ResourceList>\[0\] = \$0\.Node\.Status\.Capacity$`, 1, "starting from the node's reported capacity")...)
 			return rs
 		}},
+		// static-pool accounting of a NodeClaim is written after its StateNode was (re)built: the rebuild cleans up the
+		// pool entry of the previous provider id (launch transition "" → id), which must not wipe what was just written
+		NOREACH{ID: "C03.NR1", Fn: "(*state.Cluster).UpdateNodeClaim", From: `^call \(\*state\.NodePoolState\)\.UpdateNodeClaim\(`, Sink: `^call \(\*state\.Cluster\)\.newStateFromNodeClaim\(`,
+			Note: "NodePoolState.UpdateNodeClaim is the last word: no StateNode rebuild (and Cleanup) after it"},
+		POST{ID: "C03.POST6", Fn: "(*state.Cluster).UpdateNodeClaim", From: "", Must: []string{`^call \(\*state\.NodePoolState\)\.UpdateNodeClaim\(\$0\.NodePoolState, \$1, `}, Note: "every NodeClaim update reaches the static-pool accounting"},
+		DOM{ID: "C03.VIEW1c", Fn: "(*state.StateNode).Capacity", Sink: `^store &local<\[2\]corev1\.ResourceList>\[0\] = \$0\.Node\.Status\.Capacity$`, Gates: gates(
+			G(`+^\(\*state\.StateNode\)\.Initialized\(\$0\)$`, `+^\$0\.NodeClaim == nil$`),
+		), Note: "the Node's own capacity is taken as is only once the node is initialized (a registered node may not report device-plugin resources yet), or when there is no NodeClaim"},
+		DOM{ID: "C03.VIEW1d", Fn: "(*state.StateNode).Capacity", Sink: `^store &local<\[2\]corev1\.ResourceList>\[0\] = \$0\.NodeClaim\.Status\.Capacity$`, Gates: gates(
+			G(`+^\$0\.Node == nil$`),
+		), Note: "the NodeClaim's capacity alone only while there is no Node"},
 		POST{ID: "C03.VIEW1b", Fn: "(*state.StateNode).Capacity", FromLit: `+^utils/resources\.IsZero\(lo\.Assign\[.*\]\(&local<\[1\]corev1\.ResourceList>\[:\]\)\[next\(range\(\$0\.NodeClaim\.Status\.Capacity\)\)#1\]\)$`,
 			Must: []string{`^mapupdate lo\.Assign\[.*\]\(&local<\[1\]corev1\.ResourceList>\[:\]\)\[next\(range\(\$0\.NodeClaim\.Status\.Capacity\)\)#1\] = next\(range\(\$0\.NodeClaim\.Status\.Capacity\)\)#2$`}},
 		core.Custom{ID: "C03.CMP1", Kind: "ORD", Run: c03FilterCmp},
